@@ -323,6 +323,9 @@ pub mod pulls {
 
     thread_local! {
         static PULLS: Cell<u64> = const { Cell::new(0) };
+        /// a parse that pulls more than this many tokens is stopped (panic, caught by the unit): the budget check must
+        /// not itself hang on a parser whose work explodes
+        static LIMIT: Cell<u64> = const { Cell::new(u64::MAX) };
     }
 
     /// `&[char]` that counts every token pull
@@ -341,7 +344,13 @@ pub mod pulls {
             *c
         }
         unsafe fn next_maybe(this: &mut &'a [char], cursor: &mut usize) -> Option<&'a char> {
-            PULLS.with(|p| p.set(p.get() + 1));
+            let n = PULLS.with(|p| {
+                p.set(p.get() + 1);
+                p.get()
+            });
+            if n > LIMIT.with(|l| l.get()) {
+                panic!("pull limit exceeded");
+            }
             let t = this.get(*cursor)?;
             *cursor += 1;
             Some(t)
@@ -366,7 +375,26 @@ pub mod pulls {
 
     /// (name, parser, input generator by size n)
     pub fn families<'a>() -> Vec<(&'static str, BPc<'a>, fn(usize) -> String)> {
+        let nd = || {
+            just('a')
+                .to(0usize)
+                .delimited_by(just('('), just(')'))
+                .recover_with(via_parser(nested_delimiters('(', ')', [('[', ']'), ('{', '}')], |_| 1usize)))
+                .boxed()
+        };
         vec![
+            // recovery families: their inputs are ill-formed on purpose; (re)scanning is allowed, an explosion is not
+            ("!nested_delimiters recovery, a run of unclosed openers", nd(), |n| "(".repeat(n)),
+            ("!nested_delimiters recovery, unclosed openers of alternating kinds", nd(), |n| "([{".repeat(n / 3 + 1)),
+            ("!nested_delimiters recovery, unclosed openers then tokens", nd(), |n| "(".repeat(n / 2) + &"b".repeat(n / 2)),
+            ("nested_delimiters recovery, balanced nest without the expected atom", nd(), |n| "(".repeat(n / 2 + 1) + &")".repeat(n / 2 + 1)),
+            ("nested_delimiters recovery, a flat run of groups of the other kinds", nd(), |n| "(".to_string() + &"[]{}".repeat(n / 4) + ")"),
+            ("skip_then_retry_until recovery over a run of junk", just('a').to(0usize).recover_with(skip_then_retry_until(any().ignored(), just(';').ignored())).then_ignore(just(';').or_not()).boxed(), |n| "b".repeat(n) + "a"),
+            ("!skip_then_retry_until recovery that gives up at the end", just('a').to(0usize).recover_with(skip_then_retry_until(any().ignored(), just(';').ignored())).boxed(), |n| "b".repeat(n)),
+            ("separated_by with padded items and recovery of every item", just('a').padded().recover_with(via_parser(none_of(",").repeated().at_least(1).to('a'))).separated_by(just(',')).allow_trailing().count().boxed(), |n| " b ,".repeat(n / 4)),
+            ("recursive list of lists", recursive(|r| r.separated_by(just(',')).collect::<Vec<usize>>().delimited_by(just('['), just(']')).map(|v| v.len()).or(just('a').to(0usize))).boxed(), |n| "[".to_string() + &"[a,a],".repeat(n / 6) + "a]"),
+            ("choice of three alternatives sharing a long prefix", choice((just('a').repeated().then(just('b')).ignored(), just('a').repeated().then(just('c')).ignored(), just('a').repeated().then(just('d')).ignored())).to(0usize).boxed(), |n| "a".repeat(n) + "d"),
+            ("and_is / not look-ahead per item", any().and_is(just(';').not()).repeated().count().then_ignore(just(';')).boxed(), |n| "a".repeat(n) + ";"),
             ("a* (repeated, count)", just('a').repeated().count().boxed(), |n| "a".repeat(n)),
             ("a* collect then b? (repeated + option)", just('a').repeated().collect::<Vec<_>>().then(just('b').or_not()).map(|(v, _)| v.len()).boxed(), |n| "a".repeat(n)),
             ("(ab|a)* (choice with a partially matching first alternative)", just('a').then(just('b')).ignored().or(just('a').ignored()).repeated().count().boxed(), |n| "a".repeat(n)),
@@ -390,6 +418,8 @@ pub mod pulls {
             return r;
         }
         for (name, _, gen) in &fams {
+            // a leading '!' marks a family whose inputs the grammar must reject (failed recovery)
+            let rejects = name.starts_with('!');
             // inputs first, then the parser that reads them
             let bufs: Vec<Vec<char>> = sizes.iter().map(|n| gen(*n).chars().collect()).collect();
             let fams2 = families();
@@ -399,19 +429,33 @@ pub mod pulls {
                 r.cases += 1;
                 r.validated += 1;
                 PULLS.with(|p| p.set(0));
+                // far above the budget checked below, far below what an exponential blow-up needs
+                LIMIT.with(|l| l.set(4000 * (b.len() as u64 + 1)));
                 let res = catch_unwind(AssertUnwindSafe(|| {
                     let a = p.parse(CountIn(&b[..])).has_output();
                     let c = p.check(CountIn(&b[..])).has_output();
                     (a, c)
                 }));
+                LIMIT.with(|l| l.set(u64::MAX));
                 let pulls = PULLS.with(|p| p.get());
                 r.states += b.len() as u64 + 1;
                 r.transitions += pulls;
                 match res {
-                    Err(e) => mism(&mut r, "pulls", unit, name.to_string(), &format!("n={}", b.len()), format!("panic: {}", e1::panic_msg(e))),
+                    Err(e) => {
+                        let m = e1::panic_msg(e);
+                        if m.contains("pull limit exceeded") {
+                            mism(&mut r, "pulls", unit, name.to_string(), &format!("n={}", b.len()), format!("stopped after {pulls} token pulls on {} tokens (limit 4000(n+1)): the work explodes", b.len()));
+                        } else {
+                            mism(&mut r, "pulls", unit, name.to_string(), &format!("n={}", b.len()), format!("panic: {m}"));
+                        }
+                    }
                     Ok((a, c)) => {
-                        if !a || !c {
+                        if a != c {
+                            mism(&mut r, "pulls", unit, name.to_string(), &format!("n={}", b.len()), format!("parse (accepted={a}) and check (accepted={c}) disagree"));
+                        } else if !rejects && !a {
                             mism(&mut r, "pulls", unit, name.to_string(), &format!("n={}", b.len()), "the family's own well-formed input was rejected".into());
+                        } else if rejects && a && b.len() > 1 {
+                            mism(&mut r, "pulls", unit, name.to_string(), &format!("n={}", b.len()), "the family's ill-formed input was accepted".into());
                         }
                     }
                 }
@@ -421,7 +465,7 @@ pub mod pulls {
             // absolute budget is c * (n + 1)
             for w in counts.windows(2) {
                 let ((n0, p0), (n1, p1)) = (w[0], w[1]);
-                if n0 >= 8 && n1 >= 2 * n0 - 2 && (p1 as f64) > 2.6 * (p0 as f64) + 64.0 {
+                if n0 >= 8 && n1 >= 2 * n0 - 2 && n1 <= 2 * n0 + 4 && (p1 as f64) > 2.6 * (p0 as f64) + 64.0 {
                     mism(&mut r, "pulls", unit, name.to_string(), &format!("n={n0}->{n1}"), format!("token pulls grow faster than linearly: {p0} pulls for {n0} tokens, {p1} for {n1}"));
                 }
             }
@@ -430,7 +474,7 @@ pub mod pulls {
                     mism(&mut r, "pulls", unit, name.to_string(), &format!("n={n}"), format!("{p} token pulls for {n} tokens exceeds the budget 24(n+1)"));
                 }
             }
-            if r.samples.len() < 4 {
+            if r.samples.len() < 6 {
                 r.samples.push(format!("{name}: pulls by input length {:?}", counts));
             }
         }
